@@ -47,6 +47,18 @@ Rows ==
     (* from a container (std::vector, a user type with data() and size()): every extent compiles (checked at run time) *)
     \cup {[k |-> "fromcont", lvl |-> IF ca => c THEN "v" ELSE "a", src |-> src, ca |-> ca, E |-> e, c |-> c, ok |-> (ca => c)] :
               src \in {"vector", "box"}, ca \in BOOLEAN, e \in Exts, c \in BOOLEAN}
+    (* element types that differ in more than a qualification (round 5): the source's elements are of a class derived from  *)
+    (* the view's element type and larger than it.  A view of such elements would stride by sizeof(base): s[i] would not be *)
+    (* element i and size_bytes() would not cover the source, so "views exactly those elements" can only hold if the       *)
+    (* construction does not exist ([span.cons]: an array of the source's element type must convert to an array of ElementType). *)
+    (* The reverse direction (base elements into a span of derived) and unrelated element types never convert either.      *)
+    \cup {[k |-> "fromrel", lvl |-> "v", src |-> src, rel |-> rel, ca |-> ca, E |-> e, c |-> c, ok |-> FALSE] :
+              src \in {"carray", "stdarray", "vector", "box", "span", "spanS"}, rel \in {"derived", "base", "unrelated"},
+              ca \in BOOLEAN, e \in {DYN, 2}, c \in BOOLEAN}
+    (* the same sources with the element type itself: the qualification rule only (guards the rendering of the rows above) *)
+    \cup {[k |-> "fromrel", lvl |-> IF (ca => c) /\ (src = "span" => e = DYN) THEN "v" ELSE "a", src |-> src, rel |-> "same", ca |-> ca, E |-> e, c |-> c,
+           ok |-> (ca => c) /\ (src = "span" => e = DYN)] :
+              src \in {"carray", "stdarray", "vector", "box", "span", "spanS"}, ca \in BOOLEAN, e \in {DYN, 2}, c \in BOOLEAN}
     (* make_span: arrays keep their size as the extent, containers are dynamic, constness follows the argument *)
     \cup {[k |-> "make", lvl |-> "v", src |-> src, N |-> n, ca |-> ca, R |-> IF src \in {"vector", "box"} THEN DYN ELSE n, Rc |-> ca] :
               src \in {"carray", "stdarray", "vector", "box"}, n \in 1..MaxE, ca \in BOOLEAN}
